@@ -102,7 +102,22 @@ func genRound(rng *vf.RNG, idx int) *roundSpec {
 	}
 	// phases
 	nph := rng.Range(1, 4)
-	shape := rng.Intn(5)
+	shape := rng.Intn(6)
+	if shape == 5 {
+		// sequential fill: limit+1 single attempts of one kind from distinct IPs; the last one must be
+		// refused by the pre-check on any implementation (covers the *_rejected_limit branches)
+		kind, lim := "accept", int(rs.MaxIn)
+		if rng.Bool() {
+			kind, lim = "connect", int(rs.MaxOut)
+		}
+		for i := range rs.Remotes {
+			rs.Remotes[i].IP = fmt.Sprintf("10.9.%d.%d", i/250, 1+i%250)
+		}
+		for p := 0; p <= lim && p < g; p++ {
+			rs.Phases = append(rs.Phases, phaseSpec{Ops: []opSpec{{Kind: kind, Remote: p}}})
+		}
+		return rs
+	}
 	for p := 0; p < nph; p++ {
 		ph := phaseSpec{Barrier: rng.Chance(75)}
 		used := map[int]bool{}
